@@ -11,6 +11,7 @@ import Driver.TokensDrv
 import Driver.MarkupDrv
 import Driver.WaitDrv
 import Driver.NextTokenDrv
+import Driver.ChanDrv
 /-! `ysgo-model`: reads case lines on stdin, prints the model's observation lines (id, index, observation) -/
 open Ysgo Ysgo.Drv
 
@@ -29,6 +30,7 @@ def dispatch (stream : String) (c : S) : List String :=
   | "markup" => markupCase c
   | "wait" => waitCase c
   | "nexttoken" => nexttokenCase c
+  | "chansched" => chanschedCase c
   | _ => ["UNKNOWN-STREAM"]
 
 partial def loop (h : IO.FS.Stream) (out : IO.FS.Stream) : IO Unit := do
